@@ -961,7 +961,10 @@ class ProductSpaceElement(LinearSpaceElement):
             indexed_parts = tuple(self.parts[i] for i in indices)
         elif isinstance(indices, tuple):
             if len(indices) == 0:
-                return
+                # The empty index addresses the whole element (like
+                # ``arr[()]``); this is where ``z[i, j] = v`` ends up if
+                # ``z[i][j]`` is itself a product space element.
+                indexed_parts = self.parts
             else:
                 # We need to explicitly use __setitem__ here, otherwise
                 # __getitem__ is used and assigned to, which fails if
